@@ -341,6 +341,11 @@ func c01R2(e *Engine) {
 			if allFresh {
 				continue
 			}
+			// helpers whose every caller is itself a mutator of the pair are analysed inlined in their callers
+			if tc.onlyCalledByMutators(fn, seen) {
+				e.ob("R2", e.fname(fn)+":Data/SortedKeys", e.pos(fn.Pos()), Pass, false, "helper analysed inlined in its callers")
+				continue
+			}
 			tc.run("R2", fn)
 		}
 	}
